@@ -239,6 +239,7 @@ func (p c18) battery(env *Env) (*Case, []*Out) {
 			nf := *t0
 			nf.Doc = addProp(withDef(withDef(cloneObj(t0.Doc), "OddTarget", Obj{{"type", "object"}, {"properties", Obj{{"x", Obj{{"type", "string"}}}}}}), "OddPrim", Obj{{"type", "string"}, {"minLength", 2}}), "odd0", o.v)
 			spec := w2.Spec("", nil, args)
+			spec.FS = append(spec.FS, oddFiles("/w/a")...)
 			for i := range spec.FS {
 				if spec.FS[i].Path == "/w/a/t0f.json" {
 					spec.FS[i].Data = nf.Bytes(nil)
@@ -255,6 +256,7 @@ func (p c18) battery(env *Env) (*Case, []*Out) {
 		d = addProp(d, "odd2", Obj{{"type", "object"}, {"additionalProperties", o.v}})
 		nf.Doc = d
 		spec := w.Spec("", nil, args)
+		spec.FS = append(spec.FS, oddFiles("/w/a")...)
 		for i := range spec.FS {
 			if spec.FS[i].Path == "/w/a/t0f.json" {
 				spec.FS[i].Data = nf.Bytes(nil)
@@ -299,6 +301,13 @@ func (p c18) Gen(t *rapid.T, env *Env) (*Case, []*Out) {
 	}
 	if scenario == "env" && rapid.IntRange(0, 9).Draw(t, "corpus") < 2 {
 		w, args = GenCorpusWorld(t)
+	}
+	if w == nil && scenario == "env" && rapid.IntRange(0, 3).Draw(t, "shadowworld") == 0 {
+		// the layouts that make resolution ambiguous (two candidates for an extension-less reference, two files
+		// under one relative spelling, odd file names, documents on the web): a fault while probing the
+		// candidates must not silently select another one
+		w = genWorld(t, maxFiles, false, false, true)
+		args = drawArgs(t, w)
 	}
 	if w == nil {
 		w = GenWorldOpt(t, maxFiles, scenario == "recursive", scenario == "env")
@@ -402,6 +411,11 @@ func (p c18) Gen(t *rapid.T, env *Env) (*Case, []*Out) {
 				mr := c18Run{Kind: "fault", What: f.Kind, Op: ev.Op, Target: target, WriteSide: ws, Ref: 0, Feature: feature}
 				if f.Kind == "eof" && (strings.HasSuffix(ev.Path, ".yaml") || strings.HasSuffix(ev.Path, ".yml")) {
 					mr.NoCompare = true // a prefix of a YAML document is often a YAML document
+				}
+				if f.Kind == "errno:ENOENT" && (ev.Op == "stat" || ev.Op == "lstat") {
+					// "no such file" from stat is a statement about the world, not an error: probing the next
+					// candidate (extension, spelling) is what the tool is supposed to do then
+					mr.NoCompare = true
 				}
 				if target == "input" || target == "stdin" {
 					mr.MayFail = true
@@ -1240,6 +1254,9 @@ func (p c18) Eval(c *Case, outs []*Out) []Discrepancy {
 				if f.Fault.Kind == "eof" && (strings.HasSuffix(f.Path, ".yaml") || strings.HasSuffix(f.Path, ".yml")) {
 					mr.NoCompare = true
 				}
+				if f.Fault.Kind == "errno:ENOENT" && (f.Op == "stat" || f.Op == "lstat") {
+					mr.NoCompare = true
+				}
 			}
 		}
 		// S1
@@ -1544,6 +1561,12 @@ var oddityTexts = []struct{ name, json string }{
 	{"min-items-only", "{\"type\": \"array\", \"items\": {\"type\": \"string\"}, \"minItems\": 0, \"maxItems\": 0}"},
 	{"readonly-writeonly", "{\"type\": \"string\", \"readOnly\": true, \"writeOnly\": true, \"deprecated\": true, \"examples\": [1, {}]}"},
 	{"ref-https", "{\"$ref\": \"https://example.com/s/none.json\"}"},
+	{"ref-file-without-root", "{\"$ref\": \"oddrootless.json\"}"},
+	{"ref-file-without-root-fragment", "{\"$ref\": \"oddrootless.json#/$defs/OnlyDef\"}"},
+	{"ref-file-empty-object", "{\"$ref\": \"oddempty.json\"}"},
+	{"ref-file-array-root", "{\"$ref\": \"oddarray.json\"}"},
+	{"ref-file-true-root", "{\"$ref\": \"oddtrue.json\"}"},
+	{"ref-file-id-only", "{\"$ref\": \"oddidonly.yaml\"}"},
 	{"ref-unsupported-scheme", "{\"$ref\": \"ftp://example.com/x.json\"}"},
 }
 
@@ -1567,6 +1590,18 @@ var oddities = func() []struct {
 	}
 	return out
 }()
+
+// oddFiles: small documents for the whole-file reference oddities, placed next to the referring document.
+func oddFiles(dir string) []simrt.Node {
+	mk := func(n, body string) simrt.Node { return simrt.Node{Path: filepath.Join(dir, n), Kind: "f", Data: []byte(body)} }
+	return []simrt.Node{
+		mk("oddrootless.json", `{"$defs": {"OnlyDef": {"type": "string"}}}`),
+		mk("oddempty.json", `{}`),
+		mk("oddarray.json", `[]`),
+		mk("oddtrue.json", `true`),
+		mk("oddidonly.yaml", "$id: https://example.com/oddidonly\ndefinitions:\n  A:\n    type: integer\n"),
+	}
+}
 
 func genOddities(t *rapid.T, w *World, args []string, add addFn) {
 	afs := argFiles(w, args)
@@ -1618,6 +1653,7 @@ func genOddities(t *rapid.T, w *World, args []string, add addFn) {
 	nf.Doc = doc
 	abs := filepath.Join(w.Root, f.Rel())
 	spec := w.Spec("", nil, args)
+	spec.FS = append(spec.FS, oddFiles(filepath.Dir(abs))...)
 	for i := range spec.FS {
 		if spec.FS[i].Path == abs {
 			spec.FS[i].Data = subst(nf.Bytes(nil), "", w.Root)
